@@ -181,7 +181,7 @@ def full_client_deviation(rng: random.Random) -> dict:
     other = base64.b64encode(bytes(rng.getrandbits(8) for _ in range(32))).decode()
     client: dict = {"addresses": ["10.0.0.5"], "keepalive": 20.0, "noise_psk": psk}
     device: dict = {"transport": "noise", "psk": psk, "eph_seed": "%x" % rng.getrandbits(32)}
-    dev = pick(rng, ["wrong_key", "reject_mac", "reject_other", "selector", "empty_hello", "name", "noise_to_plain_rst", "noise_to_plain_reply", "noise_to_plain_fin", "plain_to_noise", "bad_psk"])
+    dev = pick(rng, ["wrong_key", "reject_mac", "reject_other", "selector", "empty_hello", "low_order_key", "name", "noise_to_plain_rst", "noise_to_plain_reply", "noise_to_plain_fin", "plain_to_noise", "bad_psk"])
     scn: dict = {"deviation": dev}
     if dev == "wrong_key":
         device["psk"] = other
@@ -197,6 +197,11 @@ def full_client_deviation(rng: random.Random) -> dict:
         scn["expect_error"] = HS
     elif dev == "empty_hello":
         device["noise_empty_hello"] = True
+        scn["expect_error"] = HS
+    elif dev == "low_order_key":
+        # the responder's ephemeral key is a low-order curve25519 point (all-zero shared secret): the X25519 backend refuses
+        # it with its own exception type, which is a handshake failure like any other
+        device["noise_hs_epub"] = pick(rng, ["00" * 32, "01" + "00" * 31, "e0eb7a7c3b41b8ae1656e3faf19fc46ada098deb9c32b1fd866205165f49b800", "5f9c95bca3508c24b1d0b1559c83ef5b04445cc4581c8e86d8224eddd09f1157", "ecffffffffffffffffffffffffffffffffffffffffffffffffffffffffffff7f"])
         scn["expect_error"] = HS
     elif dev == "name":
         client["expected_name"] = "simdev"
@@ -236,7 +241,7 @@ def full_client_deviation(rng: random.Random) -> dict:
         scn["expect_error"] = KEY
         scn["nothing_written"] = True
     events: list = []
-    if dev in ("wrong_key", "reject_mac", "reject_other", "selector", "name", "empty_hello") and rng.random() < 0.3:
+    if dev in ("wrong_key", "reject_mac", "reject_other", "selector", "name", "empty_hello", "low_order_key") and rng.random() < 0.3:
         # the deviating answer becomes readable just before the 30 s handshake deadline while the event loop is stalled
         # past it: the reader runs before the overdue timer, the specific error still wins
         device["noise_hello_latency" if dev in ("selector", "name", "empty_hello") else "noise_hs_latency"] = pick(rng, [29.9, 29.99])
